@@ -835,6 +835,11 @@ type deadlineContextWriter struct {
 
 	// quit closed once the connection is closed.
 	quit chan struct{}
+
+	// failed is set once a write to w has failed; it is protected by semaphore.
+	// After a failed (possibly partial) write nothing more is written, otherwise
+	// the peer would receive a frame following a torn one.
+	failed bool
 }
 
 // writeContext implements contextWriter.
@@ -853,13 +858,21 @@ func (c *deadlineContextWriter) writeContext(ctx context.Context, p []byte) (int
 		<-c.semaphore
 	}()
 
+	if c.failed {
+		return 0, ErrConnectionClosed
+	}
+
 	if c.timeout > 0 {
 		err := c.w.SetWriteDeadline(time.Now().Add(c.timeout))
 		if err != nil {
 			return 0, err
 		}
 	}
-	return c.w.Write(p)
+	n, err := c.w.Write(p)
+	if err != nil {
+		c.failed = true
+	}
+	return n, err
 }
 
 func newWriteCoalescer(conn deadlineWriter, writeTimeout, coalesceDuration time.Duration,
@@ -886,6 +899,11 @@ type writeCoalescer struct {
 
 	testEnqueuedHook func()
 	testFlushedHook  func()
+
+	// failed is set once a write to c has failed; it is only used by the flusher goroutine.
+	// After a failed (possibly partial) write nothing more is written, otherwise
+	// the peer would receive a frame following a torn one.
+	failed bool
 }
 
 type writeRequest struct {
@@ -976,6 +994,15 @@ func (w *writeCoalescer) writeFlusherImpl(timerC <-chan time.Time, resetTimer fu
 }
 
 func (w *writeCoalescer) flush(resultChans []chan<- writeResult, buffers net.Buffers) {
+	if w.failed {
+		for i := range resultChans {
+			resultChans[i] <- writeResult{
+				n:   0,
+				err: ErrConnectionClosed,
+			}
+		}
+		return
+	}
 	// Flush everything we have so far.
 	if w.timeout > 0 {
 		err := w.c.SetWriteDeadline(time.Now().Add(w.timeout))
@@ -993,6 +1020,9 @@ func (w *writeCoalescer) flush(resultChans []chan<- writeResult, buffers net.Buf
 	buffers2 := make(net.Buffers, len(buffers))
 	copy(buffers2, buffers)
 	n, err := buffers2.WriteTo(w.c)
+	if err != nil {
+		w.failed = true
+	}
 	// Writes of bytes before n succeeded, writes of bytes starting from n failed with err.
 	// Use n as remaining byte counter.
 	for i := range buffers {
